@@ -1,4 +1,7 @@
-import AsherahVerif.Driver.Loop
-/- model driver executable of engine `kms` (stub until the engine is built) -/
+import AsherahVerif.Driver.Kms
+/- model driver executable of engine `kms` (C17, KMS part of C10); protocol: AsherahVerif/Driver/Kms.lean -/
+open AsherahVerif.Driver
+
 def main (_args : List String) : IO UInt32 := do
-  IO.eprintln "engine kms: not built yet"; return 2
+  runEngine KmsEngine.engine
+  return 0
